@@ -63,3 +63,15 @@ Theorem C01_object_numbers_do_not_matter : forall (t1 t2 : ntree) (st1 st2 : N -
 Proof. exact object_numbers_do_not_matter. Qed.
 Print Assumptions C01_object_numbers_do_not_matter.
 
+Theorem C01_reading_depends_on_what_the_lookups_answer : forall st1 st2 : N -> option gobj, (forall n : N, st1 n = st2 n) -> forall (fuel : nat) (inh : attrs) (n : N), gflatten fuel st1 inh n = gflatten fuel st2 inh n.
+Proof. exact reading_depends_on_what_the_lookups_answer. Qed.
+Print Assumptions C01_reading_depends_on_what_the_lookups_answer.
+
+Theorem C01_a_page_shows_what_its_content_says : forall (fonts : list fontdec) (a : attrs) (items : list item), page_strings fonts a (flat_map item_ops items) = flat_map (fun it : item => map (shown fonts (a_res a) (item_font it)) (item_shows it)) items.
+Proof. exact a_page_shows_what_its_content_says. Qed.
+Print Assumptions C01_a_page_shows_what_its_content_says.
+
+Theorem C01_operators_that_are_not_text_showing_show_nothing : forall (f o : bytes) (args : list obj), op_is o "Tf" = false -> op_is o "Tj" = false -> op_is o "'" = false -> op_is o """" = false -> op_is o "TJ" = false -> step_op f (o, args) = (f, []).
+Proof. exact operators_that_are_not_text_showing_show_nothing. Qed.
+Print Assumptions C01_operators_that_are_not_text_showing_show_nothing.
+
